@@ -11,7 +11,8 @@ let () =
     | "c18" -> C18.run_line
     | "c19" -> C19.run_line
     | "c20" -> C20.run_line
-    | "c01" | "c02" | "c12" -> C02.run_line
+    | "c01" | "c02" -> C02.run_line
+    | "c12" -> C12.run_line
     | "c05" -> C05.run_line
     | "c06" | "c07" -> C06.run_line
     | "c08" -> C08.run_line
